@@ -439,6 +439,12 @@ def regen(snap):
     """coq/Gen/FitnessOps.v from the snapshot's fitness.tcc / model_measurements.h"""
     text, problems = fitness_ops.generate(snap)
     if problems:
+        # outside the recognised subset: the last good description (checked in as gen/c18_FitnessOps.fallback.v)
+        # serves as a hand-written model; never keep a file regenerated from some other tree
+        with open(os.path.join(vv.VERIF, "gen", "c18_FitnessOps.fallback.v")) as f:
+            fb = f.read()
+        with vv.Lock("coq"):
+            vv.write_if_changed(os.path.join(vv.COQ, "Gen", "FitnessOps.v"), fb)
         return False, problems
     with vv.Lock("coq"):
         vv.write_if_changed(os.path.join(vv.COQ, "Gen", "FitnessOps.v"), text)
